@@ -206,9 +206,9 @@ def main(tier, replay=None):
     rng = random.Random(run.seed)
     cases = []
     for li, xs in enumerate(lists):
-        for f in (STATS[:11] if not quick else [STATS[(li + j) % 11] for j in range(3)]):
+        for f in [STATS[(li + j) % 11] for j in range(3 if quick else 6)]:
             gs = groupings(rng, xs)
-            for g in (gs if not quick else [gs[0], gs[2], gs[-1]]):
+            for g in ([gs[0], gs[2], gs[-1]] if quick else [gs[0]] + gs[2:6]):
                 cases.append({'f': f, 'args': g})
         if not quick or rng.random() < 0.12:
             cases += crit_cases(rng, xs)
